@@ -203,6 +203,11 @@ func (env *Env) eval(x Expr) Val {
 							}
 							return env.e.constVal(ssa.NewConst(c.Val(), ty))
 						}
+						if sp := env.e.W.SSAPkgs[imp.Path()]; sp != nil {
+							if g, ok := sp.Members[n.Name].(*ssa.Global); ok && env.e.W.ImmutableGlobal(g) {
+								return Val{T: env.e.W.GlobalConst(g), Ty: g.Type().Underlying().(*types.Pointer).Elem()}
+							}
+						}
 					}
 				}
 			}
